@@ -1365,3 +1365,27 @@ V("rf-c16-ew-dictcomp-swapped-key", "C16", "fire", UT, _C16_EW, "    return {(j,
 V("rf-c12-extra-draw", "C12", "fire", GE, "        targets = list(range(p))\n        for i, k in enumerate(range(K)):\n", "        targets = list(rng.choice(list(range(p)), size=p, replace=False))\n        for i, k in enumerate(range(K)):\n", rule="COUNT.loops", what="a third draw outside the sampling loops")
 V("rf-c12-comp-K-plus-one", "C12", "fire", GE, "    if replace:\n        interventions = []\n        targets = list(range(p))\n        for i, k in enumerate(range(K)):\n            intervention = list(rng.choice(targets, size=sizes[i], replace=False))\n            interventions.append(intervention)\n    else:\n",
   "    if replace:\n        interventions = [list(rng.choice(list(range(p)), size=sizes[i], replace=False)) for i in range(K - 1)]\n    else:\n", rule="COUNT.K", what="comprehension form producing K - 1 interventions")
+
+# ------------------------------------------------------------------------------- C03, in-degree form of Kahn's loop (refactor round 2)
+_K_SRC = "    sinks = list(np.where(A.sum(axis=0) == 0)[0])\n"
+_K_RDY = "            A[i, j] = 0\n            if len(pa(j, A)) == 0:\n"
+
+
+def _kahn_indeg(init="    indegree = A.sum(axis=0)\n    sinks = list(np.where(indegree == 0)[0])\n", body="            A[i, j] = 0\n            indegree[j] -= 1\n            if indegree[j] == 0:\n"):
+    return [(UT, _K_RDY, body)], init
+
+
+for _id, _exp, _init, _body, _rule, _what in [
+    ("rf-c03-indegree", "silent", None, None, None, "in-degree array maintained instead of recomputing the parent set"),
+    ("rf-c03-indegree-dec-first", "silent", None, "            indegree[j] -= 1\n            A[i, j] = 0\n            if indegree[j] == 0:\n", None, "decrement before the removal"),
+    ("rf-c03-indegree-no-dec", "fire", None, "            A[i, j] = 0\n            if indegree[j] == 0:\n", "KAHN.ready", "in-degree never decremented"),
+    ("rf-c03-indegree-test-first", "fire", None, "            A[i, j] = 0\n            if indegree[j] == 0:\n                sinks.append(j)\n            indegree[j] -= 1\n            if False:\n", None, "tested before it is decremented"),
+    ("rf-c03-indegree-le-one", "fire", None, "            A[i, j] = 0\n            indegree[j] -= 1\n            if indegree[j] <= 1:\n", "KAHN.ready", "ready with one parent left"),
+    ("rf-c03-indegree-rows", "fire", "    indegree = A.sum(axis=1)\n    sinks = list(np.where(A.sum(axis=0) == 0)[0])\n", None, None, "out-degrees instead of in-degrees"),
+    ("rf-c03-indegree-raw-weights", "fire", None, None, None, "in-degree = sum of raw weights"),
+]:
+    _more, _i = _kahn_indeg(*( [_init] if _init else [] ), **({"body": _body} if _body else {}))
+    _edits = list(_more)
+    if _id == "rf-c03-indegree-raw-weights":
+        _edits.append((UT, "    A = (A != 0).astype(int)\n    # Check that there are no undirected edges\n", "    A = A.astype(float)\n    # Check that there are no undirected edges\n"))
+    V(_id, "C03", _exp, UT, _K_SRC, _i, rule=_rule, what=_what, more=_edits, **({} if _exp == "silent" else {"accept_inconclusive": True}))
